@@ -141,6 +141,24 @@ theorem modifyWidths_ok (maxW ws : List (String × ℝ)) (h : WidthsOk maxW ws) 
   rw [modOne_fst] at hm hfix
   exact modOne_le maxW ratio kv0 m hm (hle m hm hfix)
 
+/-- the point of the `or not newAlpha > 0` test in `_modify_alpha`: with positive input widths,
+    **no ratio whatever** — zero, negative, or one whose product with the width is 0 (the real-number
+    image of floating-point underflow) — makes `modifyWidths` return a non-positive width: in that
+    case the old width is kept -/
+theorem modifyWidths_pos_any_ratio (maxW ws : List (String × ℝ)) (ratio : ℝ)
+    (h : ∀ p ∈ ws, 0 < p.2) : ∀ p ∈ modifyWidths maxW ws ratio, 0 < p.2 := by
+  rw [modifyWidths_eq]
+  intro p hp
+  obtain ⟨kv0, hmem, rfl⟩ := List.mem_map.mp hp
+  exact modOne_pos_any maxW ratio kv0 (h kv0 hmem)
+
+/-- not vacuous: with ratio 0 (every product is 0) both widths are kept as they were, whether or
+    not the key has a configured maximum -/
+example : modifyWidths [("kappa", (1 : ℝ))] [("kappa", (1 / 2 : ℝ)), ("poisson", 3)] 0
+    = [("kappa", 1 / 2), ("poisson", 3)] := by
+  rw [modifyWidths_eq]
+  simp [modOne, isFixedKey, List.lookup]
+
 /-- no key is lost, and the balancing widths are carried unchanged -/
 theorem modifyWidths_keys (maxW ws : List (String × ℝ)) (ratio : ℝ) :
     (modifyWidths maxW ws ratio).map (·.1) = ws.map (·.1) ∧
